@@ -1,6 +1,6 @@
 """C15 - built models are complete, acyclic, uniquely named, frozen, and round-trip."""
 from pyvc.api import *
-from contracts.graph import G, M, N, SHAPES, install_graph_models, calc_fn
+from contracts.graph import G, M, N, SHAPES, install_graph_models, calc_fn, dist_fn
 
 STRUCTURAL = ("_inputs", "_kwinputs", "_name", "_needs_seed", "_function", "_distribution", "_at", "_per_obs", "_value_node", "_dist_node", "_observed", "_parameter")
 
@@ -136,6 +136,16 @@ def u_rejections(ip):
     ip.call(method(ip, p, "set_inputs"), [q], {})
     kind, r = try_call(ip, PyFn(lambda ip_: g.build(q), "build"), [])
     c.oblige("cyclic_graph_rejected", kind == "raise")
+    # a cycle that runs through the EVALUATION edge of a distribution (d is evaluated at a function of its own log-density)
+    dd = ip.call(g.Dist, [dist_fn("Dcyc")], {})
+    cc = g.calc("f_cyc", dd, name="cyc_calc")
+    ip.setattr(dd, "at", cc)
+    kind, r = try_call(ip, PyFn(lambda ip_: g.build(cc), "build"), [])
+    c.oblige("cycle_through_a_distributions_evaluation_edge_rejected", kind == "raise")
+    xv = g.var("xcyc", dist=g.dist("Dx"))
+    ip.setattr(xv, "value_node", g.calc("f_self", xv.f["_dist_node"], name="xcyc_calc"))
+    kind, r = try_call(ip, PyFn(lambda ip_: g.build(xv), "build"), [])
+    c.oblige("variable_whose_value_depends_on_its_own_log_density_rejected", kind == "raise")
     # the Model constructor used directly (grow=False: no automatic naming): two UNNAMED nodes / variables / a duplicated name next to distinct ones
     Model = ip.repo(f"{M}::Model")
     u1, u2 = ip.call(g.Value, [z3.Const("u1", U)], {}), ip.call(g.Value, [z3.Const("u2", U)], {})
